@@ -140,7 +140,9 @@ fn check_instant(loc: &mut Local, x: &Ix, zc: &ZoneCase, u: i64, got_public: Opt
     }
     if let Some(a) = got_public {
         loc.bucket(x.public);
-        if *a != Ans::Single(exp) {
+        if matches!(a, Ans::Panic(msg) if msg.starts_with(tzchild::GLUE)) {
+            loc.violation(&format!("C05/Local.offset_from_utc_datetime/{}/{}/public-routes-disagree", zc.kind, src), json!({"zone": zc.label, "tz": zc.tz_env, "unix": u, "expected_offset": exp, "observed": a.print()}));
+        } else if *a != Ans::Single(exp) {
             loc.violation(&format!("C05/Local.offset_from_utc_datetime/{}/{}/wrong-offset", zc.kind, src), json!({"zone": zc.label, "tz": zc.tz_env, "unix": u, "expected": exp, "observed": a.print()}));
         }
     }
@@ -219,7 +221,8 @@ fn check_local(loc: &mut Local, x: &Ix, zc: &ZoneCase, l: i64, got_public: Optio
     }
     let judge = |loc: &mut Local, a: &Ans, route: &str| {
         if let Ans::Panic(msg) = a {
-            loc.violation(&format!("C05/{}/{}/{}/panic-or-error", route, zc.kind, src), json!({"zone": zc.label, "wall": l, "message": msg, "rule": m.rule.as_ref().map(|r| r.print(true))}));
+            let cls = if msg.starts_with(tzchild::GLUE) { "public-routes-disagree" } else { "panic-or-error" };
+            loc.violation(&format!("C05/{}/{}/{}/{}", route, zc.kind, src, cls), json!({"zone": zc.label, "wall": l, "message": msg, "rule": m.rule.as_ref().map(|r| r.print(true))}));
             return;
         }
         if let Some((p, q)) = exempt {
